@@ -1532,6 +1532,19 @@ def r_gophermap(d):
         nl = [x for x in out.split(b"\r\n") if x and x != b"."]
         if len(nl) != 2 or nl[0][:1] != b"i" or b"/menus.gophermap/file.txt" not in nl[1]:
             return {"confirmed": True, "scenario": "a directory named menus.gophermap holding a two-line gophermap", "response": repr(out[:300])}
+        # malformed lines (no item type, a type but neither description nor selector, a non-numeric port) never fail the directory
+        dn = os.path.join(top, "malformed")
+        os.makedirs(dn, exist_ok=True)
+        open(os.path.join(dn, "a.txt"), "w").write("x")
+        for content in (b"Welcome\n\ta.txt\n0A\ta.txt\n", b"0\t\n0A\ta.txt\n", b"0A\ta.txt\thost.example\tnotaport\n0B\ta.txt\n", b"\t\t\t\n0A\ta.txt\n"):
+            open(os.path.join(dn, "gophermap"), "wb").write(content)
+            for rq in (b"/malformed\r\n", b"/malformed\t$\r\n", b"GET /malformed HTTP/1.0\r\n\r\n"):
+                hb.rootpath = None; hm.rootpath = None; hm.handlers = None
+                out, logs_ = _serve(rq, cfg)
+                bad = [l for l in logs_ if "EXCEPTION" in l and "FileNotFound" not in l]
+                if bad or not out or b"a.txt" not in out:
+                    return {"confirmed": True, "scenario": "a directory whose gophermap is %r, request %r: every request gets one complete response and the well-formed lines are rendered" % (content, rq),
+                            "response": repr(out[:200]), "log": bad[-1:]}
         # a gophermap of zero lines (or of one empty line) is still THE listing of its directory: no entry for the files next to it
         for content, nwant in ((b"", 0), (b"\n", 1), (b"only text\n", 1)):
             dn = os.path.join(top, "archive", "private")
